@@ -5,21 +5,22 @@
 From Coq Require Import String.
 From Coq Require Import List NArith ZArith Bool.
 From Coq Require Import Init.Byte.
-From FFS Require Import Base.Res Base.Bytes Base.Lit Abi.Types Abi.Spec Abi.ModelTypes Abi.DecModel Abi.DecCost.
-From FFS Require Rlp.Model.
+From FFS Require Import Base.Res Base.Bytes Base.Lit Base.Keccak Abi.Types Abi.Spec Abi.ModelTypes Abi.DecModel Abi.DecCost.
+From FFS Require Rlp.Model Abi.EntryModel.
 Import ListNotations.
 
 (* the component tree parseABIParameterComponents builds for a type (names do not matter to the
-   decoder; the suffix matters only through being empty or not) *)
+   decoder; the suffix is the decimal text of the dimensions, as in the signature) *)
+Definition dec_suffix (m : N) : bytes := EntryModel.fmt_N m.
 Fixpoint tc_of_ty (t : ty) : tcomp :=
   match t with
-  | TUInt m => TCElem EUInt [x6d] m 0 []
-  | TInt m => TCElem EInt [x6d] m 0 []
+  | TUInt m => TCElem EUInt (dec_suffix m) m 0 []
+  | TInt m => TCElem EInt (dec_suffix m) m 0 []
   | TAddress => TCElem EAddress [] 160 0 []
   | TBool => TCElem EBool [] 8 0 []
-  | TFixed m n => TCElem EFixed [x6d] m n []
-  | TUFixed m n => TCElem EUFixed [x6d] m n []
-  | TBytesN m => TCElem EBytes [x6d] m 0 []
+  | TFixed m n => TCElem EFixed (dec_suffix m ++ [x78] ++ dec_suffix n) m n []
+  | TUFixed m n => TCElem EUFixed (dec_suffix m ++ [x78] ++ dec_suffix n) m n []
+  | TBytesN m => TCElem EBytes (dec_suffix m) m 0 []
   | TBytes => TCElem EBytes [] 0 0 []
   | TString => TCElem EString [] 0 0 []
   | TFunction => TCElem EFunction [] 24 0 []
@@ -77,7 +78,13 @@ Inductive case :=
    [memchk] = the type is inside the memory clause (no element type of zero encoded size) *)
 | CDec (t : ty) (data : bdsl) (off : Z) (cls : nat) (dl da db : N) (alloc : N) (memchk : bool)
 (* Entry.DecodeCallData(data) with the entry's selector *)
-| CCall (sel : bdsl) (t : ty) (data : bdsl) (cls : nat) (dl da db : N) (alloc : N) (memchk : bool).
+| CCall (sel : bdsl) (t : ty) (data : bdsl) (cls : nat) (dl da db : N) (alloc : N) (memchk : bool)
+(* Entry.DecodeEventData(topics, data) of the event name(inputs) - (type, indexed) per input *)
+| CEvent (name : bdsl) (anon : bool) (inputs : list (ty * bool)) (topics : list bdsl) (data : bdsl)
+         (cls : nat) (dl da db : N)
+(* ABI.ParseError(data) against the error definitions (name, input types); [matched] = index of the
+   matched definition + 1, 0 for the built-in Error(string) *)
+| CError (errs : list (bdsl * list ty)) (data : bdsl) (cls : nat) (matched : bdsl) (dl da db : N).
 
 (* result codes: 0 agree; 1..9 the model differs from the implementation; >= 10 the implementation
    breaks the property on this input *)
@@ -97,6 +104,24 @@ Definition check_case (c : case) : N :=
       judge (DecodeABIData_c (tc_of_ty t) (bexpand data) off) cls dl da db alloc memchk
   | CCall sel t data cls dl da db alloc memchk =>
       judge (DecodeCallData_c (bexpand sel) (tc_of_ty t) (bexpand data)) cls dl da db alloc memchk
+  | CEvent name anon inputs topics data cls dl da db =>
+      let e := EntryModel.mkEntry EntryModel.TyEvent (bexpand name) anon
+                 (map (fun ti : ty * bool => EntryModel.mkParam (Some (tc_of_ty (fst ti))) (snd ti)) inputs) in
+      judge (EntryModel.DecodeEventData keccak256 DecodeABIData decode_elementary e (map bexpand topics) (bexpand data), 0%N)
+            cls dl da db 0 false
+  | CError errs data cls matched dl da db =>
+      let a := map (fun nt : bdsl * list ty =>
+                      EntryModel.mkEntry EntryModel.TyError (bexpand (fst nt)) false
+                        (map (fun t => EntryModel.mkParam (Some (tc_of_ty t)) false) (snd nt))) errs in
+      if (cls =? 2)%nat then 12 else
+      match EntryModel.ParseError keccak256 DecodeABIData a (bexpand data), cls with
+      | Ok (Some (e, x)), 0%nat =>
+          if negb (bytes_eqb (EntryModel.e_name e) (bexpand matched)) then 4     (* another definition matched *)
+          else if digest_matches x dl da db then 0 else 2
+      | Ok None, 1%nat => 0
+      | Panic, _ => 3
+      | _, _ => 1
+      end
   end.
 
 Fixpoint mismatches_go (i : N) (l : list case) : list (N * N) :=
@@ -112,4 +137,5 @@ Definition units_of (c : case) : N :=
   match c with
   | CDec t data off _ _ _ _ _ _ => snd (DecodeABIData_c (tc_of_ty t) (bexpand data) off)
   | CCall sel t data _ _ _ _ _ _ => snd (DecodeCallData_c (bexpand sel) (tc_of_ty t) (bexpand data))
+  | _ => 0
   end.
